@@ -255,6 +255,17 @@ pub fn configs(ctx: &Ctx) -> Stats {
                 recs[n / 2].seq.clear();
             }
         }
+        // a few records carry a header whose id is blank but which has a description ("> sample 7"):
+        // unusual, accepted by the reader, and row order must not care
+        if rng.chance(1, 3) {
+            for j in 0..recs.len() {
+                if rng.chance(1, 6) {
+                    recs[j].id = String::new();
+                    recs[j].desc = Some(format!("blank-id record {}", j));
+                }
+            }
+            st.class("input-with-blank-id-headers");
+        }
         let norm = rng.chance(2, 3);
         let delim = rng.pick(&[" ", ",", "\t"]).to_string();
         let sc = Scratch::new(ctx, "c05c");
